@@ -997,6 +997,19 @@ def plain_column_types(ctx, R, rule):
             if isinstance(t, ast.Constant) and isinstance(t.value, str) \
                     and len(node.args) > 1:
                 t = node.args[1]
+            for _i in range(3):
+                # a type handed through a (class- or module-level) name
+                # bound once: what an expanded column helper leaves
+                if isinstance(t, ast.Name) and not (
+                        prog.dotted(m, t) or '').startswith('sqlalchemy.'):
+                    ds = [a.value for a in ast.walk(m.tree)
+                          if isinstance(a, ast.Assign) and any(
+                              isinstance(x, ast.Name) and x.id == t.id
+                              for x in a.targets)]
+                    if len(ds) == 1:
+                        t = ds[0]
+                        continue
+                break
             tn = t.func if isinstance(t, ast.Call) else t
             d = prog.dotted(m, tn) or ''
             if not (d.startswith('sqlalchemy.') and d.rsplit('.', 1)[-1]
@@ -1179,3 +1192,41 @@ def inline_locals(f, e, depth=3):
             break
         out = new
     return out
+
+
+class _FuseComps(ast.NodeTransformer):
+    """``{f(x) for x in [g(y) for y in ys]}`` is ``{f(g(y)) for y in ys}``
+    (the inner comprehension has one generator and no condition, the outer
+    target is a plain name)."""
+
+    def _fuse(self, node):
+        self.generic_visit(node)
+        if len(node.generators) != 1:
+            return node
+        g = node.generators[0]
+        inner = g.iter
+        if not (isinstance(g.target, ast.Name) and isinstance(
+                inner, (ast.ListComp, ast.GeneratorExp)) and len(
+                    inner.generators) == 1 and not
+                inner.generators[0].ifs):
+            return node
+        from psa import pathval
+        env = {g.target.id: inner.elt}
+
+        def sub(e):
+            return pathval.subst(e, env)
+        ig = inner.generators[0]
+        new_gen = ast.comprehension(target=ig.target, iter=ig.iter,
+                                    ifs=[sub(c) for c in g.ifs],
+                                    is_async=0)
+        if isinstance(node, ast.DictComp):
+            return ast.DictComp(key=sub(node.key), value=sub(node.value),
+                                generators=[new_gen])
+        return type(node)(elt=sub(node.elt), generators=[new_gen])
+
+    visit_ListComp = visit_SetComp = visit_GeneratorExp = visit_DictComp = \
+        _fuse
+
+
+def fuse_comprehensions(e):
+    return ast.fix_missing_locations(_FuseComps().visit(ast_copy(e)))
